@@ -2017,7 +2017,7 @@ def str_method(I, s, name):
             ne = any((x.nonempty if isinstance(x, SStr) else bool(x)) for x in items) or (len(items) > 1 and bool(s))
             return SStr(I_.st.fresh_name('join'), nonempty=ne, parts=('join', s, items))
         return B(join)
-    if name in ('split', 'startswith', 'endswith', 'strip', 'replace', 'lower', 'upper', 'lstrip', 'rstrip', 'find', 'rfind', 'count', 'format', 'splitlines'):
+    if name in ('split', 'rsplit', 'partition', 'rpartition', 'startswith', 'endswith', 'strip', 'replace', 'lower', 'upper', 'lstrip', 'rstrip', 'find', 'rfind', 'count', 'format', 'splitlines'):
         def meth(I_, a, k):
             if all(isinstance(x, (str, int, type(None), tuple)) for x in a):
                 r = __builtins__['getattr'](s, name)(*a) if isinstance(__builtins__, dict) else __import__('builtins').getattr(s, name)(*a)
